@@ -39,7 +39,7 @@ func genC07(dir, tier string, seed int64) {
 		maxRank, keep = 4, 1
 	}
 	cw := newCaseWriter(dir, "C07_ops", opHeader("CheckC07"), opFooter,
-		fmt.Sprintf("bounded-exhaustive: all shapes of rank 0..%d with extents 1..3 x (Shape; Squeeze without axes and with every axes list of length<=2 over [-r-1,r]; Unsqueeze with every axes list of length 1..2 over [-(r+n)-1,r+n]; Flatten with every axis in [-r-2,r+2], the int64 / int32 extremes and default; Reshape to every target of length<=3 over {-2,-1,0,1,2,3,4,6,9}); index-coded data; dtype round-robin over all 14; quick tier keeps all cases of rank<=2 and a seeded 1/%d sample of rank 3", maxRank, keep), tier == "thorough", 1500)
+		fmt.Sprintf("bounded-exhaustive: all shapes of rank 0..%d with extents 1..3 x (Shape; Squeeze without axes and with every axes list of length<=2 over [-r-1,r]; Unsqueeze with every axes list of length 1..2 over [-(r+n)-1,r+n]; seeded axes lists of 3 and 4 entries for both (unsorted, mixed spellings, half of them with one axis twice at non-neighbouring positions); Flatten with every axis in [-r-2,r+2], the int64 / int32 extremes and default; Reshape to every target of length<=3 over {-2,-1,0,1,2,3,4,6,9}); index-coded data; dtype round-robin over all 14; quick tier keeps all cases of rank<=2 and a seeded 1/%d sample of rank 3", maxRank, keep), tier == "thorough", 1500)
 	k := 0
 	for _, s := range shapesUpToRank(0, maxRank, []int{1, 2, 3}) {
 		s := s
@@ -83,6 +83,40 @@ func genC07(dir, tier string, seed int64) {
 				}
 				axes := axes
 				emit("Unsqueeze", nil, func() tensor.Tensor { return i64v(axes) })
+			}
+		}
+		// longer axes lists (3 and 4 entries), seeded: unsorted, mixed spellings, and in half of them one axis
+		// twice (in either spelling) at positions that are NOT next to each other
+		for n := 3; n <= 4; n++ {
+			for rep := 0; rep < 4; rep++ {
+				for _, op := range []string{"Unsqueeze", "Squeeze"} {
+					total := rk
+					if op == "Unsqueeze" {
+						total = rk + n
+					}
+					if total == 0 {
+						continue
+					}
+					axes := make([]int64, n)
+					perm := r.Perm(total)
+					for i := range axes {
+						axes[i] = int64(perm[i%total])
+						if r.Intn(2) == 0 {
+							axes[i] -= int64(total)
+						}
+					}
+					if rep%2 == 1 { // the first axis again, at the end, possibly in the other spelling
+						axes[n-1] = axes[0]
+						if r.Intn(2) == 0 {
+							if axes[0] < 0 {
+								axes[n-1] += int64(total)
+							} else {
+								axes[n-1] -= int64(total)
+							}
+						}
+					}
+					emit(op, nil, func() tensor.Tensor { return i64v(axes) })
+				}
 			}
 		}
 		for a := -rk - 2; a <= rk+2; a++ {
